@@ -10,6 +10,7 @@ CONSTANTS
   FullLevels = {5}
   MedLevels = {}
   TinyLevels = {1,2,3,4,6,7}
+  AliasLevels = {}
   XOffs = {}
   XLens = {}
   MaxLen = 13
